@@ -43,6 +43,7 @@ type State struct {
 	heap     map[string]string
 	heap0    map[string]string
 	allocs   []string
+	pcTags   map[int][]string    // path-condition entries that are only relevant for obligations carrying one of these tags
 	top      string              // allocation boundary: every reference allocated so far is < top
 	top0     string              // its value at function entry
 	nonNil   map[*types.Var]bool // tree maps known to be non-nil (created by a literal / make, only index-assigned since)
@@ -73,6 +74,10 @@ func (s *State) clone() *State {
 	n.guards = append([]string(nil), s.guards...)
 	n.path = append([]string(nil), s.path...)
 	n.allocs = append([]string(nil), s.allocs...)
+	n.pcTags = map[int][]string{}
+	for k, v := range s.pcTags {
+		n.pcTags[k] = v
+	}
 	n.nonNil = map[*types.Var]bool{}
 	for k, v := range s.nonNil {
 		n.nonNil[k] = v
@@ -180,8 +185,45 @@ func (e *Exec) pos(p token.Pos) string {
 }
 
 // emit records an obligation under the current path condition.
+// assumeTagged adds a fact that is only handed to obligations sharing one of the tags (keeps unrelated queries small).
+func (st *State) assumeTagged(t string, tags []string) {
+	if len(tags) > 0 {
+		if st.pcTags == nil {
+			st.pcTags = map[int][]string{}
+		}
+		st.pcTags[len(st.pc)] = tags
+	}
+	st.pc = append(st.pc, t)
+}
+
+// onlyOwnTags: clauses that belong to a single-purpose group (currently the pass-through clauses of C06) are only used
+// for obligations of that group; everything else is shared.
+func onlyOwnTags(tags []string) []string {
+	if len(tags) == 1 && tags[0] == "C06" {
+		return tags
+	}
+	return nil
+}
+
+func sharesTag(a, b []string) bool {
+	for _, x := range a {
+		for _, y := range b {
+			if x == y {
+				return true
+			}
+		}
+	}
+	return false
+}
+
 func (e *Exec) emit(st *State, kind, key, goal string, tags []string, p token.Pos, clause string) {
-	pc := append([]string(nil), st.pc...)
+	var pc []string
+	for i, t := range st.pc {
+		if tg, ok := st.pcTags[i]; ok && !sharesTag(tg, tags) {
+			continue
+		}
+		pc = append(pc, t)
+	}
 	if len(st.guards) > 0 {
 		pc = append(pc, st.guards...)
 	}
@@ -669,7 +711,7 @@ func verifyFunc(w *World, fi *FuncInfo, sweep bool) (res *FuncResult) {
 			goal := e.clause(en.X, st, names, fi.Decl.Body.Rbrace, info, clausePost)
 			e.emit(st, "post", fmt.Sprintf("post[%d]", i+1), goal, en.Tags, fi.Decl.Pos(), en.Src)
 			// clauses are proved in order: earlier ones may be used for later ones on the same path
-			st.pc = append(st.pc, goal)
+			st.assumeTagged(goal, en.Tags)
 		}
 	}
 	_ = entry
